@@ -1,6 +1,6 @@
 (* PropC19.v — property C19: file-level metadata answers equal a fold over the complete
    record stream. *)
-From PG Require Import Base Mapping Metadata MetadataProofs GuardParser GuardMeta.
+From PG Require Import Base Mapping Metadata MetadataProofs GuardParser GuardMeta FileLevel.
 From PG.Gen Require Extracted.
 
 Theorem C19_has_line_info : forall b, has_line_info b = existsb method_with_lines (items b).
@@ -29,5 +29,13 @@ Proof. exact is_valid_spec. Qed.
 (* the window of the code (re-read by the translator on every run) is the 50 of the property *)
 Theorem C19_window_is_50 : GuardParser.agrees Extracted.is_valid_window 50 /\ valid_window = 50%nat.
 Proof. split; [exact guard_window_50|exact valid_window_50]. Qed.
+
+(* the answers that ignore error items are functions of the Ok-records, hence local to lines *)
+Theorem C19_has_line_info_concat : forall A B nl, In nl [[10];[13];[13;10]] ->
+  has_line_info (A ++ nl ++ B) = has_line_info A || has_line_info B.
+Proof. exact has_line_info_concat. Qed.
+Theorem C19_summary_concat : forall A B nl, In nl [[10];[13];[13;10]] ->
+  summarize (A ++ nl ++ B) = fold_left summary_step (map IOk (recs B)) (summarize A).
+Proof. exact summarize_concat. Qed.
 
 Check C19_has_line_info : forall b, has_line_info b = existsb method_with_lines (items b).
